@@ -755,3 +755,163 @@ Proof.
   unfold is_real. rewrite Hr, Hc.
   destruct Hq as [[Hn ->]|[Hn ->]]; rewrite Hn in *; simpl in *; assumption.
 Qed.
+
+(* ================= unlambda: result.Args[n] is in range when the literal's type is the callee's ================= *)
+Fixpoint ul_need (flds : list node) (ell : bool) : nat :=
+  match flds with
+  | [] => 0
+  | fld :: r =>
+      match field_type fld with
+      | None => 0
+      | Some ty => if is_ellipsis ty then (if negb ell then 0 else 1 + ul_need r ell) else length (field_names fld) + ul_need r ell
+      end
+  end.
+
+Lemma ul_names_total ids : forall args n s, n + length ids <= length args -> ul_names ids args n <> P s.
+Proof.
+  induction ids as [|id r IH]; simpl; intros args n s H; [discriminate|].
+  destruct (nth_error args n) eqn:E; [|apply nth_error_None in E; lia].
+  destruct (node_eqb id n0); [apply IH; lia|discriminate].
+Qed.
+
+Lemma ul_names_res ids : forall args n n', ul_names ids args n = R (Some n') -> n' = n + length ids.
+Proof.
+  induction ids as [|id r IH]; simpl; intros args n n' H; [injection H as <-; lia|].
+  destruct (nth_error args n); [|discriminate]. destruct (node_eqb id n0); [|discriminate].
+  apply IH in H. lia.
+Qed.
+
+Lemma ul_params_total flds : forall args ell n s, n + ul_need flds ell <= length args -> ul_params flds args ell n <> P s.
+Proof.
+  induction flds as [|fld r IH]; simpl; intros args ell n s H; [discriminate|].
+  destruct (field_type fld) as [ty|]; [|discriminate].
+  destruct (is_ellipsis ty).
+  - destruct (negb ell); [discriminate|]. apply IH. lia.
+  - destruct (ul_names (field_names fld) args n) as [[n'|]|s0] eqn:E.
+    + apply ul_names_res in E. apply IH. lia.
+    + discriminate.
+    + exfalso. eapply ul_names_total; [|exact E]. lia.
+Qed.
+
+Lemma ul_need_le_slots flds ell : ul_need flds ell <= slots_of flds.
+Proof.
+  induction flds as [|fld r IH]; simpl; [lia|]. destruct (field_type fld) as [ty|]; [|lia].
+  assert (L : length (field_names fld) <= (if N.eqb (na fld) 0 then 1 else N.to_nat (na fld))).
+  { unfold field_names. rewrite firstn_length. destruct (N.eqb (na fld) 0) eqn:E; [apply N.eqb_eq in E; rewrite E; simpl; lia|lia]. }
+  destruct (is_ellipsis ty); [destruct (negb ell); lia|lia].
+Qed.
+
+Lemma ul_need_variadic flds : last_is_ellipsis flds = true -> ul_need flds false + 1 <= slots_of flds.
+Proof.
+  induction flds as [|fld r IH]; [discriminate|]. intros H.
+  pose proof (ul_need_le_slots r false) as Lr.
+  assert (L : length (field_names fld) <= (if N.eqb (na fld) 0 then 1 else N.to_nat (na fld))).
+  { unfold field_names. rewrite firstn_length. destruct (N.eqb (na fld) 0) eqn:E; [apply N.eqb_eq in E; rewrite E; simpl; lia|lia]. }
+  destruct r as [|f2 r2].
+  - simpl in *. destruct (field_type fld) as [ty|]; [|discriminate]. rewrite H. simpl. lia.
+  - change (last_is_ellipsis (fld :: f2 :: r2)) with (last_is_ellipsis (f2 :: r2)) in H. specialize (IH H).
+    change (ul_need (fld :: f2 :: r2) false) with
+      (match field_type fld with None => 0 | Some ty => if is_ellipsis ty then 0 else length (field_names fld) + ul_need (f2 :: r2) false end).
+    change (slots_of (fld :: f2 :: r2)) with
+      ((match field_type fld with Some ty => if is_ellipsis ty then 1 else (if N.eqb (na fld) 0 then 1 else N.to_nat (na fld)) | None => 0 end) + slots_of (f2 :: r2)).
+    destruct (field_type fld) as [ty|]; [|lia]. destruct (is_ellipsis ty); lia.
+Qed.
+
+(* f(g()) with g multi-valued: the single argument is not an identifier, the first comparison fails *)
+Lemma ul_params_forward flds a0 :
+  (forall fld id, In fld flds -> In id (field_names fld) -> node_eqb id a0 = false) ->
+  forall s, ul_params flds [a0] false 0 <> P s.
+Proof.
+  induction flds as [|fld r IH]; simpl; intros H s; [discriminate|].
+  destruct (field_type fld) as [ty|]; [|discriminate].
+  destruct (is_ellipsis ty); [discriminate|].
+  destruct (field_names fld) as [|id ids] eqn:Fn.
+  - simpl. apply IH. intros; eapply H; eauto.
+  - simpl. rewrite (H fld id (or_introl eq_refl)); [discriminate|rewrite Fn; left; reflexivity].
+Qed.
+
+Lemma node_eqb_tag x y : ntag x <> ntag y -> node_eqb x y = false.
+Proof.
+  destruct x as [t1 ? ? ? ? ? ?], y as [t2 ? ? ? ? ? ?]. simpl. intros H.
+  destruct (tag_eqb t1 t2) eqn:E; [apply tag_eqb_eq in E; contradiction|reflexivity].
+Qed.
+
+Lemma ul_shape_inv e ps call : ul_shape e = Some (ps, call) ->
+  exists p s a b ff ft body ret,
+    e = Nd TFuncLit p s a b ff (NC ft (NC body NN)) /\ ft_params ft = Some ps /\ kids body = [ret] /\ kids ret = [call].
+Proof.
+  intros H. unfold ul_shape in H.
+  destruct e as [t p s a b ff k]. destruct t; try discriminate.
+  destruct k as [|ft [|body [|? ?]]]; try discriminate.
+  destruct (kids body) as [|ret [|? ?]] eqn:Kb; try discriminate.
+  destruct (negb (is_tag TReturn ret)); [discriminate|].
+  destruct (kids ret) as [|c [|? ?]] eqn:Kr; try discriminate.
+  destruct (is_tag TCall c); [|discriminate].
+  destruct (ft_params ft) as [ps0|] eqn:Ep; [|discriminate]. injection H as <- <-.
+  exists p, s, a, b, ff, ft, body, ret. auto.
+Qed.
+
+Lemma all_tag_In t l x : all_tag t l = true -> In x l -> ntag x = t.
+Proof. unfold all_tag. rewrite forallb_forall. intros H Hx. apply is_tag_eq. auto. Qed.
+
+Lemma unlambda_total_partial f :
+  wf f = true -> all_nodes_sat g_unlambda_arity f -> forall s, run_unlambda f <> Panic s.
+Proof.
+  intros W G. apply run_expr_total. intros e He s. unfold unlambda_visit.
+  destruct (ul_shape e) as [[ps call]|] eqn:Sh; [|discriminate].
+  destruct (ul_shape_inv e ps call Sh) as [p0 [s0 [a0' [b0 [ff0 [ft [body [ret [Ee [Eps [Kb Kr]]]]]]]]]]].
+  assert (Hft : In ft (all_nodes f)) by (apply (all_nodes_kid f e ft He); rewrite Ee; unfold kids; simpl; auto).
+  assert (Hbody : In body (all_nodes f)) by (apply (all_nodes_kid f e body He); rewrite Ee; unfold kids; simpl; auto).
+  assert (Hret : In ret (all_nodes f)) by (apply (all_nodes_kid f body ret Hbody); rewrite Kb; left; reflexivity).
+  assert (Hcall : In call (all_nodes f)) by (apply (all_nodes_kid f ret call Hret); rewrite Kr; left; reflexivity).
+  assert (Hps : In ps (all_nodes f)) by (apply (all_nodes_kid f ft ps Hft); eapply ft_params_kid; eauto).
+  destruct (nkids call) as [|fn args] eqn:Kc; [discriminate|]. cbv zeta.
+  destruct (String.eqb _ ""); [discriminate|]. destruct (is_builtin _); [discriminate|].
+  destruct (contains_node _ fn); [discriminate|].
+  destruct (xbit x_fn_same_type e) eqn:Same; simpl; [|discriminate].
+  pose proof (sat_of _ _ _ G He) as Ge. unfold g_unlambda_arity in Ge. rewrite Sh, Same in Ge.
+  apply andb_true_iff in Ge as [_ Ge].
+  assert (Kc' : kids call = fn :: to_list args) by (unfold kids; rewrite Kc; reflexivity).
+  rewrite Kc' in Ge. apply andb_true_iff in Ge as [_ Ar].
+  destruct (ul_params (kids ps) (to_list args) (N.eqb (na call) 1) 0) as [[n|]|s1] eqn:E; try discriminate; [destruct (Nat.eqb _ n); discriminate|].
+  exfalso. revert E.
+  unfold arity_ok in Ar. rewrite Nat2N.id in Ar.
+  destruct (Nat.eqb (length (to_list args)) 1 && negb (N.eqb (match to_list args with a0 :: _ => f_multi (nfacts a0) | [] => 0%N end) 0) && negb (N.eqb (na call) 1)) eqn:Multi.
+  - (* multi-value forwarding: the single argument is not an identifier *)
+    apply andb_true_iff in Multi as [Multi Ne]. apply andb_true_iff in Multi as [L1 Fm].
+    apply negb_true_iff in Ne. rewrite Ne.
+    destruct (to_list args) as [|a0 [|? ?]] eqn:Ka; try discriminate.
+    apply ul_params_forward. intros fld id Hfld Hid. apply node_eqb_tag.
+    assert (Ha0 : In a0 (all_nodes f)).
+    { apply (all_nodes_kid f call a0 Hcall). rewrite Kc'. right. left. reflexivity. }
+    pose proof (sat_of _ _ _ G Ha0) as Ga. unfold g_unlambda_arity in Ga. apply andb_true_iff in Ga as [Ga _].
+    destruct (is_tag TIdent a0) eqn:Ta; [rewrite Ga in Fm; discriminate|].
+    assert (Tft : ntag ft = TFuncType).
+    { pose proof (wf_node_of _ _ W He) as We. rewrite Ee in We. unfold wf_node in We. simpl in We.
+      apply andb_true_iff in We as [We _]. apply is_tag_eq. exact We. }
+    assert (Tps : ntag ps = TFieldList).
+    { pose proof (wf_node_of _ _ W Hft) as Wft. unfold wf_node in Wft. rewrite Tft in Wft.
+      apply andb_true_iff in Wft as [Wft _]. apply andb_true_iff in Wft as [Wft _]. apply andb_true_iff in Wft as [Wft _].
+      apply andb_true_iff in Wft as [_ Wft]. eapply all_tag_In; eauto. eapply ft_params_kid; eauto. }
+    assert (Tfld : ntag fld = TField).
+    { pose proof (wf_node_of _ _ W Hps) as Wps. unfold wf_node in Wps. rewrite Tps in Wps. eapply all_tag_In; eauto. }
+    assert (Tid : ntag id = TIdent).
+    { assert (Hfl : In fld (all_nodes f)) by (apply (all_nodes_kid f ps fld Hps Hfld)).
+      pose proof (wf_node_of _ _ W Hfl) as Wfl. unfold wf_node in Wfl. rewrite Tfld in Wfl.
+      apply andb_true_iff in Wfl as [Wfl _]. apply andb_true_iff in Wfl as [_ Wfl]. eapply all_tag_In; eauto. }
+    rewrite Tid. intros Hc. unfold is_tag in Ta. rewrite <- Hc in Ta. simpl in Ta. discriminate.
+  - apply ul_params_total. simpl.
+    destruct (last_is_ellipsis (kids ps)) eqn:Var.
+    + destruct (N.eqb (na call) 1).
+      * apply Nat.eqb_eq in Ar. pose proof (ul_need_le_slots (kids ps) true). lia.
+      * apply Nat.leb_le in Ar. pose proof (ul_need_variadic (kids ps) Var). lia.
+    + apply Nat.eqb_eq in Ar. pose proof (ul_need_le_slots (kids ps) (N.eqb (na call) 1)). lia.
+Qed.
+
+Lemma unlambda_cause f w : In w (warnings (run_unlambda f)) -> cause_in_file f w.
+Proof.
+  intros H. apply run_expr_warn in H as [e [He Hw]]. unfold cause_in_file. unfold unlambda_visit in Hw.
+  destruct (ul_shape e) as [[ps call]|]; [|contradiction].
+  destruct (nkids call); [contradiction|]. cbv zeta in Hw.
+  dmatch_in Hw. destruct Hw as [<-|[]]. exact He.
+Qed.
